@@ -304,6 +304,16 @@ def check_send_events(rep, ctx, tier):
         for a, b in zip(sends, sends[1:]):
             mid = [e for e in pops if ev.index(a) < ev.index(e) < ev.index(b)]
             rep.add(Query("send_events path %d: every batch round consumes at least one event (termination)" % i, "holds" if mid else "violated", "", 0, "mirsym", key="C18.batch.progress", reproduced=None))
+    # "an event too large for any batch is dropped rather than blocking the rest ... processing always terminates": a panic in this loop
+    # ends the reader task (nothing after it is uploaded or cleaned). Text handling is where one can hide: slicing at a byte offset
+    slicing = [r for r in paths if r.status == "panic" and re.search(r"char boundary|slice index|out of range|out of bounds|byte index", (r.note or "") + " ".join(str(e.extra or "") for e in r.events if e.kind == "panic"))]
+    if slicing:
+        r0 = slicing[0]
+        rs, model, dt, zm = check_sat(r0.pc)
+        rep.add(Query("send_events: no feasible panic path on text handling (slicing / indexing an event's text)", "violated" if rs == "sat" else "inconclusive",
+                      "%d panic path(s): %s; model %s" % (len(slicing), sorted({(r.note or "")[:80] for r in slicing})[:3], str(model)[:160]), dt, "mirsym+z3", key="C18.batch.no-panic", model=model, reproduced=None))
+    else:
+        rep.add(Query("send_events: no feasible panic path on text handling (slicing / indexing an event's text)", "holds", "%d paths" % len(paths), 0, "mirsym+z3", key="C18.batch.no-panic"))
     rep.add(Query("witness: send_events has oversize-drop, put-back and send paths", "witness-hit" if n_drop and n_put and n_send else "witness-missed", "%d/%d/%d" % (n_drop, n_put, n_send), 0, "mirsym"))
     rep.bounds["send_events"] = "<= %d events per file (loop bound), sizes symbolic 64-bit" % (2 if tier == "quick" else 3)
 
